@@ -83,7 +83,7 @@ theorem spelling_invariance (O : Oracle) (M : List Cps) (hO : AtFaithful O) (s‚Ç
 /-- the hypothesis on the oracle is satisfiable from any oracle: replace its at-rule part by the setters of
 `Model/AtRules.lean` (this is the oracle of the correspondence) -/
 theorem withAtRules_faithful (O : Oracle) : AtFaithful (withAtRules O) :=
-  ‚ü®fun _ _ => rfl, fun _ _ => rfl, fun _ => rfl, fun _ => rfl‚ü©
+  ‚ü®fun _ _ => rfl, fun _ _ => rfl, fun _ _ => rfl, fun _ => rfl, fun _ => rfl‚ü©
 
 /-- the declaration block alone (`CSSStyleDeclaration.cssText = tokens`, also the body of `@page` /
 `@font-face`): every spelled block gives back its abstract items -/
@@ -166,8 +166,8 @@ example : AtFaithful Ex2.O := withAtRules_faithful _
 example : projSheet Ex2.O Ex2.M (parseSheet Ex2.O Ex2.M (render Ex2.sheet)) = Ex2.sheet.erase :=
   parse_render _ _ (withAtRules_faithful _) _ Ex2.sheet_wf
 
-/-- a test (evaluation of the model on the rendered example), not a theorem: the parse has 8 rules -/
-example : (parseSheet Ex2.O Ex2.M (render Ex2.sheet)).length = 8 := by decide +kernel
+/-- a test (evaluation of the model on the rendered example), not a theorem: the parse has 10 rules -/
+example : (parseSheet Ex2.O Ex2.M (render Ex2.sheet)).length = 10 := by decide +kernel
 
 /-! ## the page selector (repaired: `fix: @page pseudo-page names :first, :left and :right are recognised in any
 letter case`; the pseudo-page name now has a spelling mask in `SPageSel`, so `parse_render` covers it) -/
